@@ -165,6 +165,9 @@ def generic_rules(body):
         op = h.end() - 1
         cl = match_brace(m, op)
         edits.append((h.start(), cl + 1, 'bump_alloc_layout(&%s, %s)' % (re.sub(r'\s+', '', h.group(1)), body[op + 1:cl].strip()), 'R8'))
+    # R9  &V[..] => V.as_slice()      (full-range slice of a Vec; vstd specifies as_slice)
+    for h in re.finditer(r'&\s*([A-Za-z_]\w*)\s*\[\s*\.\.\s*\]', m):
+        edits.append((h.start(), h.end(), '%s.as_slice()' % h.group(1), 'R9'))
     # R7  V.sort_unstable() => V.sort_unstable_v()   (trait shim, prelude/sortv.rs)
     for h in re.finditer(r'\b([A-Za-z_]\w*)\s*\.\s*sort_unstable\(\)', m):
         edits.append((h.start(), h.end(), '%s.sort_unstable_v()' % h.group(1), 'R7'))
@@ -204,6 +207,7 @@ class Contract:
         lines = open(self.path).read().split('\n')
         self.src_file = self.fn_spec = None
         self.wrap = None
+        self.allow_panic = False
         self.head = []          # (lineno, text): attributes + signature + clauses
         self.directives = []    # dict(kind, arg, lineno, text[])
         cur = None
@@ -214,6 +218,8 @@ class Contract:
                 _, self.src_file, self.fn_spec = s.split(None, 2)
             elif s.startswith('//@note'):
                 continue
+            elif s.startswith('//@allow-panic'):
+                self.allow_panic = True
             elif s.startswith('//@wrap'):
                 self.wrap = s[len('//@wrap'):].strip()
             elif s.startswith('//@body'):
@@ -344,6 +350,13 @@ def build_fn(key, mode, log):
             if ch == '\n':
                 ln += 1
     nb = strip_macro_messages(body, rw, where)
+    if c.allow_panic:
+        # rule D8: a DOCUMENTED panic is modelled as divergence (`documented_panic()` ensures false) instead of a
+        # precondition, so that removing the check becomes a failed postcondition
+        n2 = re.sub(r'\bpanic!\(\)', 'documented_panic()', nb)
+        if n2 != nb:
+            rw.append(dict(rule='D8', where=where, before='panic!(..)', after='documented_panic()'))
+            nb = n2
     if nb != body:
         # D2 keeps line count; rebuild origin by line
         body = nb
